@@ -48,14 +48,14 @@ Section Helpers.
   Qed.
 
   Lemma offs_of_fst : forall ids pos, map fst (offs_of ids pos) = map ren ids.
-  Proof. induction ids as [|id rest IH]; intros pos; cbn; [reflexivity|]. rewrite IH. reflexivity. Qed.
+  Proof. induction ids as [|id rest IH]; intros pos; cbn [offs_of map fst length]; [reflexivity|]. rewrite IH. reflexivity. Qed.
 
   Lemma offs_of_length : forall ids pos, length (offs_of ids pos) = length ids.
-  Proof. induction ids as [|id rest IH]; intros pos; cbn; [reflexivity|]. rewrite IH. reflexivity. Qed.
+  Proof. induction ids as [|id rest IH]; intros pos; cbn [offs_of map fst length]; [reflexivity|]. rewrite IH. reflexivity. Qed.
 
   Lemma offs_of_ge : forall ids pos o, In o (map snd (offs_of ids pos)) -> pos <= o.
   Proof.
-    induction ids as [|id rest IH]; intros pos o Hin; cbn in Hin.
+    induction ids as [|id rest IH]; intros pos o Hin; cbn [offs_of map snd] in Hin.
     - destruct Hin.
     - destruct Hin as [Heq | Hin].
       + subst. lia.
@@ -64,7 +64,7 @@ Section Helpers.
 
   Lemma offs_of_sorted : forall ids pos, StronglySorted N.lt (map snd (offs_of ids pos)).
   Proof.
-    induction ids as [|id rest IH]; intros pos; cbn.
+    induction ids as [|id rest IH]; intros pos; cbn [offs_of map snd].
     - constructor.
     - constructor; [apply IH|].
       apply Forall_forall. intros o Hin. apply offs_of_ge in Hin.
@@ -77,7 +77,7 @@ Section Helpers.
     firstn (length (obj_header k))
            (skipn (N.to_nat off) (pre ++ concat (map chunk_of ids) ++ rest)) = obj_header k.
   Proof.
-    induction ids as [|id tl IH]; intros pos pre rest k off Hpos Hin; cbn in Hin.
+    induction ids as [|id tl IH]; intros pos pre rest k off Hpos Hin; cbn [offs_of] in Hin.
     - destruct Hin.
     - destruct Hin as [Heq | Hin].
       + inversion Heq; subst k off. rewrite Hpos.
